@@ -200,6 +200,16 @@ class GaussianMerge(Compiler):
                         gaussian_transform, successors, displacement_mapping
                     )
 
+                    # Gaussian successors of op that could not be merged must stay behind the new operations
+                    for successor_op in successors:
+                        if (
+                            get_op_name(successor_op) in self.gaussian_ops
+                            and successor_op not in merged_gaussian_ops
+                        ):
+                            self.new_DAG.add_edges_from(
+                                [(new_op, successor_op) for new_op in gaussian_transform]
+                            )
+
                     # Add edges for all successor/predecessor operations of the merged operations
                     self.add_gaussian_pre_and_succ_gates(
                         gaussian_transform, merged_gaussian_ops, displacement_mapping
